@@ -2,11 +2,11 @@ package main
 
 import (
 	"fmt"
-	"time"
 	"math/big"
 	"math/rand"
 	"sort"
 	"strings"
+	"time"
 
 	ecdsakeygen "github.com/bnb-chain/tss-lib/v2/ecdsa/keygen"
 	eddsakeygen "github.com/bnb-chain/tss-lib/v2/eddsa/keygen"
